@@ -35,7 +35,7 @@ def _alarm(signum, frame):
 class StepRecord:
     __slots__ = (
         "i", "step", "pre", "post", "ret", "exc", "exc_type", "exc_frame", "exc_msg", "draws",
-        "handlers", "contraction", "world", "cache", "user_arrays", "op_obj", "ctx_calls",
+        "handlers", "contraction", "world", "cache", "user_arrays", "op_obj", "ctx_calls", "ctx_held",
     )
 
     def __init__(self):
@@ -81,10 +81,11 @@ class Runner:
         spec = step["op"]
         oid = step.get("op_id")
         calls = []
+        held = []
         if oid is not None and oid in self.op_cache:
             return self.op_cache[oid]
-        op = opspec.build_operation(spec, calls)
-        res = (op, calls)
+        op = opspec.build_operation(spec, calls, held)
+        res = (op, calls, held)
         if oid is not None:
             self.op_cache[oid] = res
         return res
@@ -96,9 +97,10 @@ class Runner:
         w = self.world
         tg = self.targets(step)
         if k == "apply":
-            op, calls = self.get_op(step)
+            op, calls, held = self.get_op(step)
             rec.op_obj = op
             rec.ctx_calls = calls
+            rec.ctx_held = held
             rec.user_arrays = _user_arrays_op(op)
             if via == "state":
                 return tg[0].apply_operation(op)
@@ -191,6 +193,7 @@ class Runner:
         rec.user_arrays = None
         rec.op_obj = None
         rec.ctx_calls = None
+        rec.ctx_held = None
         rec.contraction = bool(self.C.contractions)
         rec.pre = snapshot(self.world)
         instrument.SAMPLER.begin()
